@@ -1,5 +1,6 @@
 import Pi2.MM.Translate
 import Pi2.ModuleThm
+import Pi2.Nary
 /-!
 # Fuel monotonicity: more fuel, same answer
 -/
@@ -135,6 +136,25 @@ theorem headF_step (n : Nat) : ∀ a, OLe (headF n a) (headF (n + 1) a) := by
 
 theorem headF_mono {n m : Nat} (h : n ≤ m) (a : NPat) : OLe (headF n a) (headF m a) :=
   OLe.of_step (fun n => headF n a) (fun n => headF_step n a) h
+
+theorem naryF_step (n : Nat) : ∀ a, OLe (naryF n a) (naryF (n + 1) a) := by
+  induction n with
+  | zero => intro a; simp only [naryF]; exact OLe.none _
+  | succ n ih =>
+    have hi := fun δ p => (monoAll n).1 δ p
+    intro a
+    cases a <;> simp only [naryF, Option.bind_eq_bind, Option.pure_def] <;>
+      repeat' (first
+        | exact OLe.refl _
+        | exact hi _ _
+        | exact ih _
+        | apply OLe.bind
+        | intro _)
+
+/-- more fuel, same answer -/
+theorem naryF_mono {n m : Nat} (h : n ≤ m) (p : NPat) (r : NPat × List NPat) (hr : naryF n p = some r) :
+    naryF m p = some r :=
+  OLe.of_step (fun n => naryF n p) (fun n => naryF_step n p) h r hr
 
 theorem evarIsFreeF_step (n : Nat) : ∀ e a, OLe (evarIsFreeF n e a) (evarIsFreeF (n + 1) e a) := by
   induction n with
